@@ -77,10 +77,16 @@ func (w *c9world) sid(name string) string {
 	if s, ok := w.sids[name]; ok {
 		return s
 	}
+	// names c, d, …: relayer 1 first, then SELF, then relayer 2 - in an election without relayer 1 this relayer ranks
+	// first and relayer 2 behind it (its alive answers count)
+	second := w.ids[2]
+	if name[0] >= 'c' {
+		second = w.ids[0]
+	}
 	for i := 0; ; i++ {
 		s := name + itoa(i)
 		o := util.SortPeersForSession(w.ids, s)
-		if o[0].ID == w.ids[1] && o[1].ID == w.ids[2] {
+		if o[0].ID == w.ids[1] && o[1].ID == second {
 			w.sids[name] = s
 			return s
 		}
@@ -290,15 +296,22 @@ func c9sess(a []string) string {
 			oc = strings.Split(it[:k], ":")[3]
 			second = it[k+1:]
 		}
-		// process count, optionally followed by f<mask>: Close() of this session's stream to relayer 1 (bit 0) / 2 (bit 1) fails
-		np, mask := f[2], "0"
-		if k := strings.Index(np, "f"); k >= 0 {
-			np, mask = np[:k], np[k+1:]
+		// process count, optionally followed by f<mask> and/or w<mask>: for this session's stream to relayer 1 (bit 0) /
+		// relayer 2 (bit 1), Close() fails (f) / every Write fails from the first one on (w)
+		np, fm, wm := f[2], 0, 0
+		if k := strings.Index(np, "w"); k >= 0 {
+			wm = int(u64(np[k+1:]))
+			np = np[:k]
 		}
-		m := int(u64(mask))
-		w.self.setFailClose(map[peer.ID]bool{w.ids[1]: m&1 == 1, w.ids[2]: m&2 == 2})
+		if k := strings.Index(np, "f"); k >= 0 {
+			fm = int(u64(np[k+1:]))
+			np = np[:k]
+		}
+		w.self.setFailClose(map[peer.ID]bool{w.ids[1]: fm&1 == 1, w.ids[2]: fm&2 == 2})
+		w.self.setFailWrite(map[peer.ID]bool{w.ids[1]: wm&1 == 1, w.ids[2]: wm&2 == 2})
 		r := w.session(f[0], f[1], int(u64(np)), oc, second)
 		w.self.setFailClose(nil)
+		w.self.setFailWrite(nil)
 		if r == "hang" {
 			return "hang"
 		}
@@ -344,6 +357,9 @@ func (w *c9world) session(name, role string, np int, oc, second string) string {
 	defer cancel()
 	ret := make(chan error, 1)
 	returned := make(chan struct{})
+	if oc == "precancel" {
+		cancel() // the caller gave up between constructing the processes and executing them
+	}
 	go func() {
 		err := w.coord.Execute(ctx, tps, make(chan interface{}, 8))
 		ret <- err
@@ -446,6 +462,7 @@ func (w *c9world) session(name, role string, np int, oc, second string) string {
 	case "cancel":
 		okFlow = waitUntil(c9wait, subscribed)
 		cancel()
+	case "precancel": // (cancelled before Execute was entered, see below)
 	case "badstart":
 		okFlow = waitUntil(c9wait, subscribed)
 		_ = w.ghost.inner.Broadcast(peer.IDSlice{w.ids[0]}, []byte("{not json"), comm.TssStartMsg, sid)
@@ -462,6 +479,11 @@ func (w *c9world) session(name, role string, np int, oc, second string) string {
 	if second != "" && okFlow {
 		sf := strings.Split(second, ":")
 		elected, end := sf[0], sf[1]
+		alive := 0 // selfA<k>: k alive answers of relayer 2 (ranked behind this relayer) arrive during the election
+		if k := strings.Index(elected, "A"); k >= 0 {
+			alive = int(u64(elected[k+1:]))
+			elected = elected[:k]
+		}
 		// subscriptions handed out so far when the second wait loop stands: first attempt, handleError's watch, the loop's own
 		base := waiting + ran1 + 1
 		loop := 2
@@ -472,6 +494,9 @@ func (w *c9world) session(name, role string, np int, oc, second string) string {
 			okFlow = waitUntil(c9wait, func() bool { return isReturned() || ecomm.VerifLiveSubscriptions(sid) >= 6 })
 			if elected == "other" {
 				_ = w.strangerE.Broadcast(peer.IDSlice{w.ids[0]}, []byte{}, comm.CoordinatorSelectMsg, sid)
+			}
+			for i := 0; i < alive; i++ {
+				_ = w.strangerE.Broadcast(peer.IDSlice{w.ids[0]}, []byte{}, comm.CoordinatorAliveMsg, sid)
 			}
 		}
 		standing := func() bool { return isReturned() || subsNow() >= base+loop }
@@ -530,7 +555,7 @@ func (w *c9world) session(name, role string, np int, oc, second string) string {
 		return "hang"
 	}
 	// (the elector's listener releases its subscriptions from its own goroutine once the election context is done)
-	waitUntil(2*time.Second, func() bool { return ecomm.VerifLiveSubscriptions(sid) == 0 && ecomm.VerifStreamCount(sid) == 0 })
+	waitUntil(5*time.Second, func() bool { return ecomm.VerifLiveSubscriptions(sid) == 0 && ecomm.VerifStreamCount(sid) == 0 })
 	s1, u1, c1 := w.ledger.counts(sid)
 	runs, stops := []string{}, []string{}
 	for _, p := range procs {
@@ -605,8 +630,8 @@ func init() {
 	gens["C09"] = genC09
 }
 
-var c9outsP = []string{"ok", "fail", "silent", "gto", "cancel", "cancelrun", "badstart", "stranger", "failmsg"}
-var c9outsC = []string{"ok", "fail", "gto", "cancel", "cancelrun", "readyerr"}
+var c9outsP = []string{"ok", "fail", "silent", "gto", "cancel", "precancel", "cancelrun", "badstart", "stranger", "failmsg"}
+var c9outsC = []string{"ok", "fail", "gto", "cancel", "precancel", "cancelrun", "readyerr"}
 
 // first-attempt failure > who coordinates the second attempt : how it ends
 var c9retryP = []string{
@@ -709,6 +734,18 @@ func genC09(g *G) {
 		}
 		g.Emit("sess", "a:p:1f1:"+map[string]string{"ok": "ok", "fail": "fail", "cancelrun": "cancelrun", "gto": "failmsg"}[oc]+",a:p:1:ok,a:c:1:ok")
 	}
+	// every write on a session's fresh stream fails (every pattern), alone and together with a failing Close()
+	for _, m := range []string{"1", "2", "3"} {
+		g.Emit("sess", "a:c:1w"+m+":ok,a:c:1:ok,a:c:2f"+m+"w"+m+":fail,a:p:1:ok")
+		g.Emit("sess", "b:c:1f"+m+"w3:cancelrun,b:c:1w"+m+":gto,b:c:1:ok")
+	}
+	g.Emit("sess", "a:p:1w1:ok,a:p:2w1:fail,a:p:1f1w1:failmsg,a:p:1:ok")
+	// 0..4 alive answers of a relayer ranked behind this one arrive during the election (duplicated / late answers)
+	for _, k := range []string{"0", "1", "2", "3", "4"} {
+		end := []string{"ok", "idle", "fail", "ok", "cancel"}[int(k[0]-'0')]
+		g.Emit("sess", "c:P:1:silent>selfA"+k+":"+end+",c:p:1:ok")
+	}
+	g.Emit("sess", "d:P:2:comm>selfA3:ok,d:P:1:comm>selfA1:fail,d:c:1:ok")
 	g.Emit("sess", "a:p:1:gtorun,a:c:2:ok")
 	if g.Thorough() {
 		g.Emit("sess", "a:c:2:gtorun,a:p:1:ok")
@@ -733,7 +770,7 @@ func genC09(g *G) {
 		g.Emit("rerun", "esigning", "5")
 	}
 	// random sequences of sessions over two ids in any order, retried sessions mixed in
-	for i := 0; i < g.Count(40, 700); i++ {
+	for i := 0; i < g.Count(30, 700); i++ {
 		n := 2 + g.Intn(5)
 		xs := []string{}
 		for j := 0; j < n; j++ {
@@ -752,6 +789,9 @@ func genC09(g *G) {
 			np := itoa(1 + g.Intn(3))
 			if g.Intn(3) == 0 {
 				np += "f" + itoa(1+g.Intn(3))
+			}
+			if g.Intn(4) == 0 {
+				np += "w" + itoa(1+g.Intn(3))
 			}
 			xs = append(xs, []string{"a", "b"}[g.Intn(2)]+":"+role+":"+np+":"+oc)
 		}
